@@ -5,6 +5,7 @@
 
 pub mod hook;
 pub mod util;
+pub mod publog;
 
 pub mod c01;
 pub mod c02;
